@@ -438,6 +438,22 @@ class Interp(object):
       # "format" % values: only the fact that it is a str matters in the subset (messages)
       return SOpq(self.ctx.const("fmt", V.opaque_sort("StrMsg")), "StrMsg")
     a, b = self.unwrap(a, node, "+"), self.unwrap(b, node, "+")
+    if isinstance(a, (SSet, set, frozenset)) and isinstance(b, (SSet, set, frozenset)) and \
+        isinstance(op, (ast.Sub, ast.BitXor, ast.BitOr, ast.BitAnd)):
+      # set algebra, pointwise on the characteristic arrays (fresh result + its definition)
+      sa = a if isinstance(a, SSet) else None
+      sb = b if isinstance(b, SSet) else None
+      key = (sa if sa is not None else sb).key
+      if sa is None: sa = V.SetOf(key).build(V.SetOf(key).leaves(a))
+      if sb is None: sb = V.SetOf(key).build(V.SetOf(key).leaves(b))
+      if sa.arr.sort() != sb.arr.sort(): self.unsupported("set operation across sorts", node)
+      res = self.ctx.fresh(V.SetOf(key), "setop")
+      x = z3.Const("so?%d" % self._qid(), sa.arr.sort().domain())
+      ina, inb = z3.Select(sa.arr, x), z3.Select(sb.arr, x)
+      body = {ast.Sub: z3.And(ina, z3.Not(inb)), ast.BitXor: z3.Xor(ina, inb),
+              ast.BitOr: z3.Or(ina, inb), ast.BitAnd: z3.And(ina, inb)}[type(op)]
+      self.ctx.assume(z3.ForAll([x], z3.Select(res.arr, x) == body))
+      return res
     if isinstance(op, ast.Add) and isinstance(a, (list, tuple)) and isinstance(b, (list, tuple)):
       if type(a) is not type(b): self.raise_(TypeError, "can only concatenate like sequences", node=node)
       return a + b          # concrete containers (members may be symbolic)
@@ -1358,6 +1374,8 @@ class Interp(object):
     if self.last_enumeration is not None:
       # iteration over a set: the (unspecified) order is a ghost sequence the invariants can name
       fr.store("__iterated__", self.last_enumeration)
+      fr.store("__position__", self.last_positions)      # member -> its index in __iterated__
+      fr.store("__iterset__", self.last_iterset)         # the set being iterated (entry value)
     if isinstance(it, list):        # concrete length: unroll (complete, not a bound)
       broke = False
       for x in it:
